@@ -19,7 +19,8 @@ B = h.bounds(
     quick=dict(PRE=1, NACC=5, NA=4, FLOW=2, BUF=1, SA=1, SB=2, SC=1, VN=2),
     thorough=dict(PRE=2, NACC=7, NA=5, FLOW=3, BUF=4, SA=2, SB=3, SC=2, VN=3),
 )
-PRES = ["callable", "Variable", "Filter(even)", "Slice(a, a+b, c)", "RunIf(positive, callable)"]
+PRES = ["callable", "Variable", "Filter(even)", "Slice(a, a+b, c)", "RunIf(positive, callable)",
+        "RunIf(positive, callable, Slice(1)) - inner sequence depends on the flow it is given"]
 ACCS = ["Sum", "Mean", "FillCompute(Count())", "StoreFilled", "Histogram([0,1,2])",
         "VarianceMeanCount (values from -2..2)", "Vectorize(Sum, dim=2)"]
 BOUNDS = dict(vars(B), pres=PRES, accs=ACCS, meaning="chains pre* acc post? with <= PRE pre-elements, "
@@ -64,6 +65,10 @@ def tag(v):
     return ("post", v)
 
 
+def _stop_tag(v):
+    return ("stopper", 0)
+
+
 def make_pre(kind, a, b, c):
     if kind == 0:
         return add3
@@ -73,6 +78,8 @@ def make_pre(kind, a, b, c):
         return Filter(_even)
     if kind == 3:
         return Slice(a, a + b, c)
+    if kind == 5:
+        return RunIf(_positive, add3, Slice(1))
     return RunIf(_positive, add3)
 
 
@@ -118,6 +125,13 @@ def drive(which, els, bufsize, flow):
             return ("ok", _norm(list(Sequence(*els).run(iter(flow)))))
         if which == 1:
             return ("ok", _norm(list(Split([tuple(els)], bufsize=bufsize).run(iter(flow)))))
+        if which == 3:
+            # the chain as the second branch, after a branch that signals
+            # LenaStopFill on its second value
+            stopper = (Slice(1), StoreFilled(), _stop_tag)
+            out = list(Split([stopper, tuple(els)], bufsize=bufsize).run(iter(flow)))
+            return ("ok", _norm([v for v in out if not (isinstance(v, tuple) and len(v) == 2
+                                                        and v[0] == "stopper")]))
         fcs = FillComputeSeq(*els)
         for v in flow:
             try:
@@ -141,7 +155,7 @@ def check_three_drivers(npre: int, p0: int, p1: int, a: int, b: int, c: int, acc
                         post: bool, bs: int, xs: List[int]) -> bool:
     """
     pre: 0 <= npre <= B.PRE
-    pre: 0 <= p0 <= 4 and 0 <= p1 <= 4
+    pre: 0 <= p0 <= 5 and 0 <= p1 <= 5
     pre: 0 <= a <= B.SA and 0 <= b <= B.SB and 1 <= c <= B.SC
     pre: 0 <= acc < B.NACC and acc != 5 and acc != 1
     pre: 1 <= bs <= B.BUF + 2
@@ -156,7 +170,8 @@ def check_three_drivers(npre: int, p0: int, p1: int, a: int, b: int, c: int, acc
         r0 = drive(0, chain(pres, a, b, c, acc, pst), None, list(xs))
         r1 = drive(1, chain(pres, a, b, c, acc, pst), _bufsize(bs), list(xs))
         r2 = drive(2, chain(pres, a, b, c, acc, pst), None, list(xs))
-    return h.ok(r0 == r1 and r1 == r2)
+        r3 = drive(3, chain(pres, a, b, c, acc, pst), _bufsize(bs), list(xs))
+    return h.ok(r0 == r1 and r1 == r2 and r2 == r3)
 
 
 VALS = [-2, -1, 0, 1, 2]
@@ -189,10 +204,10 @@ def check_variance_drivers(npre: int, p0: int, a: int, b: int, n: int, i0: int, 
 def check_fill_seq(npre: int, p0: int, p1: int, a: int, b: int, c: int, xs: List[int]) -> bool:
     """
     pre: 0 <= npre <= 2
-    pre: 0 <= p0 <= 4 and 0 <= p1 <= 4
+    pre: 0 <= p0 <= 5 and 0 <= p1 <= 5
     pre: 0 <= a <= B.SA and 0 <= b <= B.SB and 1 <= c <= B.SC
     pre: len(xs) <= B.FLOW + 1
-    pre: h.in_shard(p0 + 5 * (p1 % 2))
+    pre: h.in_shard(p0 + 6 * (p1 % 2))
     post: _
     """
     # an explicit FillSeq fills exactly what the same elements yield when run
@@ -364,14 +379,15 @@ def check_adapters(adapter: int, ek: int, name: int, x: int) -> bool:
 
 
 CONDITIONS = [
-    dict(fn="check_three_drivers", shards=(20, 25), budget=(80, 1500),
+    dict(fn="check_three_drivers", shards=(24, 30), budget=(90, 1500),
          smoke=["check_three_drivers(1, 3, 0, 1, 2, 1, 0, True, 2, [1, 2, 3])",
                 "check_three_drivers(1, 1, 0, 0, 0, 1, 2, False, 1, [4, 5])",
                 "check_three_drivers(0, 0, 0, 0, 0, 1, 4, True, 3, [0, 2])",
-                "check_three_drivers(1, 4, 0, 0, 0, 1, 6, False, 1, [4, -5])"]),
+                "check_three_drivers(1, 4, 0, 0, 0, 1, 6, False, 1, [4, -5])",
+                "check_three_drivers(1, 5, 0, 0, 0, 1, 3, False, 1, [4, 5])"]),
     dict(fn="check_variance_drivers", shards=(10, 10), budget=(80, 900),
          smoke=["check_variance_drivers(1, 2, 0, 0, 3, 0, 2, 4, 1, False)", "check_variance_drivers(0, 0, 0, 0, 0, 0, 2, 4, 1, True)"]),
-    dict(fn="check_fill_seq", shards=(10, 10), budget=(70, 900),
+    dict(fn="check_fill_seq", shards=(12, 12), budget=(70, 900),
          smoke=["check_fill_seq(2, 3, 2, 1, 2, 1, [1, 2, 3])"]),
     dict(fn="check_adapters", budget=(70, 600),
          smoke=["check_adapters(1, 2, 0, 5)", "check_adapters(2, 6, 0, 5)", "check_adapters(3, 5, 1, 5)",
